@@ -15,14 +15,14 @@ Definition same_fsm (a b : ep) : Prop :=
   e_client a = e_client b /\ e_flight a = e_flight b /\ e_fst a = e_fst b /\ e_retr a = e_retr b /\
   e_reply a = e_reply b /\ e_lastsent a = e_lastsent b /\ e_interval a = e_interval b /\ e_timer a = e_timer b /\
   e_out a = e_out b /\ e_pending a = e_pending b /\ e_est a = e_est b /\ e_nstinit a = e_nstinit b /\
-  e_nst a = e_nst b /\ e_nsti a = e_nsti b /\ e_nstt a = e_nstt b.
+  e_nst a = e_nst b /\ e_nsti a = e_nsti b /\ e_nstt a = e_nstt b /\ e_sent a = e_sent b.
 
 Lemma same_fsm_refl a : same_fsm a a.
 Proof. unfold same_fsm; repeat split. Qed.
 Lemma same_fsm_trans a b c : same_fsm a b -> same_fsm b c -> same_fsm a c.
 Proof.
   unfold same_fsm.
-  intros (?&?&?&?&?&?&?&?&?&?&?&?&?&?&?) (?&?&?&?&?&?&?&?&?&?&?&?&?&?&?). repeat split; congruence.
+  intros (?&?&?&?&?&?&?&?&?&?&?&?&?&?&?&?) (?&?&?&?&?&?&?&?&?&?&?&?&?&?&?&?). repeat split; congruence.
 Qed.
 Lemma same_fsm_set_rx e a b c d f g h i : same_fsm e (set_rx e a b c d f g h i).
 Proof. unfold same_fsm, set_rx; cbn; repeat split. Qed.
@@ -148,7 +148,7 @@ Definition sent_state (c : cfg) (e e' : ep) (now : N) : Prop :=
   e_reply e' = e_reply e /\ e_lastsent e' = now /\ e_interval e' = e_interval e /\
   e_timer e' = now + e_interval e /\ e_out e' = e_out e /\
   e_pending e' = fadd_all (tracked_frags c (e_flight e) (e_out e)) (e_pending e) /\ e_est e' = e_est e /\
-  e_nstinit e' = e_nstinit e /\ e_nst e' = e_nst e /\ e_nsti e' = e_nsti e /\ e_nstt e' = e_nstt e.
+  e_nstinit e' = e_nstinit e /\ e_nst e' = e_nst e /\ e_nsti e' = e_nsti e /\ e_nstt e' = e_nstt e /\ e_sent e' = true.
 
 Lemma do_send_shape c e now :
   exists e3, sent_state c e e3 now /\
@@ -169,9 +169,9 @@ Proof.
   { subst e2. destruct fin; [|exact H1].
     eapply same_fsm_trans; [exact H1|]. eapply same_fsm_trans; [apply same_fsm_set_epochs | apply same_fsm_drain]. }
   set (pend := fadd_all _ (e_pending e)).
-  set (e3 := set_fsm e2 _ _ _ _ _ _ _ _ _ _).
+  set (e3 := set_sent (set_fsm e2 _ _ _ _ _ _ _ _ _ _) true).
   exists e3. split.
-  - destruct H2 as (Ha&Hb&Hc&Hd&He&Hf&Hg&Hh&Hi&Hj&Hk&Hl&Hm&Hn&Ho).
+  - destruct H2 as (Ha&Hb&Hc&Hd&He&Hf&Hg&Hh&Hi&Hj&Hk&Hl&Hm&Hn&Ho&_).
     unfold sent_state. subst e3. cbn. rewrite <- Ha, <- Hb, <- Hd, <- He, <- Hg, <- Hi, <- Hk, <- Hl, <- Hm, <- Hn, <- Ho.
     repeat split.
   - replace (match pend with [] => true | _ => false end) with (is_nil pend) by reflexivity.
@@ -631,7 +631,10 @@ Lemma ep_blank_bounded c cl : bounded c (ep_blank c cl).
 Proof. split; cbn; lia. Qed.
 
 Lemma ep_init_bounded c cl : bounded c (ep_init c cl).
-Proof. unfold ep_init, ep_start. apply enter_bound. apply ep_blank_bounded. Qed.
+Proof.
+  unfold ep_init, ep_start. destruct (cl && c_dualc c); [|apply enter_bound; apply ep_blank_bounded].
+  pose proof (fl_lookup_bound F1 (c_fl c)) as Hb. fold (maxrecs c) in Hb. split; cbn; [exact Hb | lia].
+Qed.
 
 (* C17 emission bound: datagrams emitted <= timer expiries * F + datagrams received * (F + 1),
    F = the number of records of the largest flight; for every input history, even when the peer
@@ -748,8 +751,8 @@ Qed.
 Lemma do_send_server c e now :
   e_client e = false -> N.eqb (e_flight e) F4 = false ->
   do_send c e now =
-    (set_fsm e (e_flight e) Waiting (e_retr e) (e_reply e) now (e_interval e) (now + e_interval e) (e_out e)
-             (fadd_all (tracked_frags c (e_flight e) (e_out e)) (e_pending e)) (e_est e),
+    (set_sent (set_fsm e (e_flight e) Waiting (e_retr e) (e_reply e) now (e_interval e) (now + e_interval e) (e_out e)
+                       (fadd_all (tracked_frags c (e_flight e) (e_out e)) (e_pending e)) (e_est e)) true,
      pack c (e_out e)).
 Proof. intros Hc Hf. unfold do_send. rewrite Hc, Hf. cbn [negb andb]. reflexivity. Qed.
 
@@ -1072,8 +1075,10 @@ Proof.
   change (N.eqb 0 0) with true. cbv iota.
   unfold after_ack. cbn [andb].
   replace (e_reply e2) with true by (subst e2 e0; cbn; congruence).
-  replace (e_lastsent e2) with (e_lastsent e) by (subst e2 e0; reflexivity).
-  destruct (N.ltb_spec (2 * (now - e_lastsent e)) (c_initial c)); [lia|].
+  assert (Hsr : sent_recently c e2 now = false).
+  { unfold sent_recently. replace (e_lastsent e2) with (e_lastsent e) by (subst e2 e0; reflexivity).
+    destruct (N.ltb_spec (2 * (now - e_lastsent e)) (c_initial c)); [lia | apply andb_false_r]. }
+  rewrite Hsr.
   rewrite do_send_server by (rewrite ?B1, ?Bf; auto).
   cbn [snd app ack_dgram]. subst e2 e0. cbn [e_out set_fsm set_rx]. rewrite Q2. reflexivity.
 Qed.
@@ -1117,27 +1122,31 @@ Lemma has_hs_ack epo fs : has_hs (ack_dgram epo fs) = false.
 Proof. destruct fs; reflexivity. Qed.
 
 (* the endpoint sent something less than half an initial interval ago *)
-Definition recent (c : cfg) (e : ep) (now : N) : Prop := 2 * (now - e_lastsent e) < c_initial c.
+Definition recent (c : cfg) (e : ep) (now : N) : Prop := e_sent e = true /\ 2 * (now - e_lastsent e) < c_initial c.
+
+Lemma recent_transfer c a b now : e_lastsent a = e_lastsent b -> e_sent a = e_sent b -> recent c a now -> recent c b now.
+Proof. unfold recent. intros -> ->. auto. Qed.
 
 (* a step that neither re-sends nor goes back: the clock of the last transmission is kept or set to
    now, the stage does not decrease, and handshake records are emitted only when it increases *)
 Definition ok_step (e : ep) (now : N) (r : ep * list dgram) : Prop :=
-  (e_lastsent (fst r) = e_lastsent e \/ e_lastsent (fst r) = now) /\
+  ((e_lastsent (fst r) = e_lastsent e /\ e_sent (fst r) = e_sent e) \/ (e_lastsent (fst r) = now /\ e_sent (fst r) = true)) /\
   stage e <= stage (fst r) /\ (has_hs (snd r) = true -> stage e < stage (fst r)) /\
   stage (fst r) <= N.max (stage e) 7.
 
 Lemma ok_step_same e now e' :
-  e_lastsent e' = e_lastsent e -> stage e' = stage e -> forall o, has_hs o = false -> ok_step e now (e', o).
+  e_lastsent e' = e_lastsent e -> e_sent e' = e_sent e -> stage e' = stage e ->
+  forall o, has_hs o = false -> ok_step e now (e', o).
 Proof.
-  intros H1 H2 o Ho. unfold ok_step. cbn [fst snd]. rewrite H1, H2, Ho.
+  intros H1 H0 H2 o Ho. unfold ok_step. cbn [fst snd]. rewrite H1, H0, H2, Ho.
   split; [auto|]. split; [lia|]. split; [discriminate | lia].
 Qed.
 
 Lemma after_ack_recent c e peer now :
   recent c e now -> after_ack c e false false peer now = (e, []).
 Proof.
-  unfold recent, after_ack. intro Hr. cbn [andb orb negb].
-  assert (H : 2 * (now - e_lastsent e) <? c_initial c = true) by (apply N.ltb_lt; exact Hr).
+  unfold recent, after_ack. intros [Hs Hr]. cbn [andb orb negb].
+  assert (H : sent_recently c e now = true) by (unfold sent_recently; rewrite Hs; apply N.ltb_lt; exact Hr).
   rewrite H. destruct peer; cbn [andb]; [|reflexivity]. destruct (e_reply e); reflexivity.
 Qed.
 
@@ -1145,7 +1154,8 @@ Lemma to_finished_fst c e now : e_fst (fst (to_finished c e now)) = Finished.
 Proof. unfold to_finished. cbv zeta. cbn [e_nstinit e_client set_fsm]. repeat dif; reflexivity. Qed.
 
 Lemma to_finished_stage c e now :
-  stage (fst (to_finished c e now)) = 7 /\ e_lastsent (fst (to_finished c e now)) = e_lastsent e.
+  stage (fst (to_finished c e now)) = 7 /\ e_lastsent (fst (to_finished c e now)) = e_lastsent e /\
+  e_sent (fst (to_finished c e now)) = e_sent e.
 Proof. unfold to_finished. cbv zeta. cbn [e_nstinit e_client set_fsm]. repeat dif; unfold stage; cbn; auto. Qed.
 
 Lemma to_finished_client c e now : e_client e = true -> snd (to_finished c e now) = [].
@@ -1167,15 +1177,15 @@ Proof. unfold stage. destruct (e_fst e); lia. Qed.
 (* what do_send leaves: the same flight, WAITING, sent now - or FINISHED *)
 Lemma do_send_stage c e now :
   e_fst e = Waiting ->
-  e_lastsent (fst (do_send c e now)) = now /\
+  (e_lastsent (fst (do_send c e now)) = now /\ e_sent (fst (do_send c e now)) = true) /\
   (stage (fst (do_send c e now)) = e_flight e \/ stage (fst (do_send c e now)) = 7).
 Proof.
   intro Hw. destruct (do_send_shape c e now) as (e3 & Hs & Heq). rewrite Heq.
-  destruct Hs as (_&Hf&Hst&_&_&Hl&_).
+  destruct Hs as (_&Hf&Hst&_&_&Hl&_&_&_&_&_&_&_&_&_&Hsn).
   dif; cbn [fst].
-  - destruct (to_finished_stage c e3 now) as [H1 H2]. destruct (to_finished c e3 now). cbn [fst] in *.
-    split; [congruence | right; exact H1].
-  - split; [exact Hl|]. left. unfold stage. rewrite Hst. exact Hf.
+  - destruct (to_finished_stage c e3 now) as (H1 & H2 & H3). destruct (to_finished c e3 now). cbn [fst] in *.
+    split; [split; congruence | right; exact H1].
+  - split; [split; assumption|]. left. unfold stage. rewrite Hst. exact Hf.
 Qed.
 
 (* the parsers only move forward *)
@@ -1202,14 +1212,15 @@ Proof.
         destruct (pull_seq e 2 (e_recvseq e) rules_client_final); cbn [snd]; auto.
 Qed.
 
-Lemma same_fsm_stage a b : same_fsm a b -> stage a = stage b /\ e_lastsent a = e_lastsent b /\ e_flight a = e_flight b.
-Proof. intros (_&Hf&Hs&_&_&Hl&_). unfold stage. rewrite Hs, Hf. auto. Qed.
+Lemma same_fsm_stage a b :
+  same_fsm a b -> stage a = stage b /\ e_lastsent a = e_lastsent b /\ e_flight a = e_flight b /\ e_sent a = e_sent b.
+Proof. intros (_&Hf&Hs&_&_&Hl&_&_&_&_&_&_&_&_&_&Hn). unfold stage. rewrite Hs, Hf. auto. Qed.
 
 Lemma acknowledge_keeps e acks :
   let e' := fst (fst (acknowledge e acks)) in
   stage e' = stage e /\ e_lastsent e' = e_lastsent e /\ e_flight e' = e_flight e /\ e_fst e' = e_fst e /\
-  e_client e' = e_client e.
-Proof. unfold acknowledge, stage; cbn. auto. Qed.
+  e_client e' = e_client e /\ e_sent e' = e_sent e.
+Proof. unfold acknowledge, stage; cbn. auto 10. Qed.
 
 (* an ACK makes progress only if it acknowledges a fragment that is still pending *)
 Lemma acknowledge_progress e acks :
@@ -1242,14 +1253,15 @@ Proof.
   unfold on_event. rewrite Hw.
   set (e1 := if retr then e else set_interval e (c_initial c)) in *.
   assert (K1 : stage e1 = stage e /\ e_lastsent e1 = e_lastsent e /\ e_flight e1 = e_flight e /\ e_fst e1 = Waiting /\
-               e_client e1 = e_client e).
-  { subst e1. destruct retr; unfold stage; cbn; rewrite ?Hw; auto. }
+               e_client e1 = e_client e /\ e_sent e1 = e_sent e).
+  { subst e1. destruct retr; unfold stage; cbn; rewrite ?Hw; auto 10. }
   pose proof (acknowledge_keeps e1 acks) as K2.
   destruct (acknowledge e1 acks) as [[e2 empty] progress]. cbn [fst snd] in *. subst empty progress.
-  destruct K1 as (S1&L1&F1'&W1&C1). destruct K2 as (S2&L2&F2'&W2&C2).
-  assert (Hrec2 : recent c e2 now) by (unfold recent in *; rewrite L2, L1; exact Hrec).
+  destruct K1 as (S1&L1&F1'&W1&C1&N1). destruct K2 as (S2&L2&F2'&W2&C2&N2).
   assert (Hst2 : stage e2 = stage e) by congruence.
   assert (Hls2 : e_lastsent e2 = e_lastsent e) by congruence.
+  assert (Hsn2 : e_sent e2 = e_sent e) by congruence.
+  assert (Hrec2 : recent c e2 now) by (eapply recent_transfer; [symmetry; exact Hls2 | symmetry; exact Hsn2 | exact Hrec]).
   destruct (negb hs && _).
   { rewrite (after_ack_recent c e2 false now Hrec2). now apply ok_step_same. }
   destruct (hs && retr && fl_last_send c (e_flight e2)).
@@ -1261,22 +1273,29 @@ Proof.
   { set (e3 := set_fsm e2 _ _ _ _ _ _ _ _ _ _).
     assert (Hc3 : e_client e3 = true).
     { subst e3. cbn. apply andb_prop in Ec. destruct Ec as [Ec _]. apply andb_prop in Ec. tauto. }
-    destruct (to_finished_stage c e3 now) as [T1 T2]. pose proof (to_finished_fst c e3 now) as T0.
+    destruct (to_finished_stage c e3 now) as (T1 & T2 & T4). pose proof (to_finished_fst c e3 now) as T0.
     pose proof (to_finished_client c e3 now Hc3) as T3.
     destruct (to_finished c e3 now) as [e4 o4]. cbn [fst snd] in *. subst o4.
     destruct (post_receive_shape c e4 hs acks rta) as (P1&_&_&_&_&_&(epo & fs & P7)).
-    pose proof (post_receive_interval c e4 hs acks rta) as _.
-    assert (P8 : e_lastsent (fst (post_receive c e4 hs acks rta)) = e_lastsent e4).
+    assert (P8 : e_lastsent (fst (post_receive c e4 hs acks rta)) = e_lastsent e4 /\
+                 e_sent (fst (post_receive c e4 hs acks rta)) = e_sent e4).
     { unfold post_receive. cbn [fst]. set (x := set_nst _ _ _ _ _).
-      assert (Hx : forall n y, e_lastsent (consume_nst n y) = e_lastsent y).
-      { induction n as [|n IH]; intro y; cbn [consume_nst]; [reflexivity|]. dif; [rewrite IH|]; reflexivity. }
+      assert (Hx : forall n y, e_lastsent (consume_nst n y) = e_lastsent y /\ e_sent (consume_nst n y) = e_sent y).
+      { induction n as [|n IH]; intro y; cbn [consume_nst]; [auto|]. dif; [|auto].
+        destruct (IH (set_rx y (e_recvseq y + 1) (e_fbcur y) (e_frags y)
+                         (filter (fun x0 => let '(m, _, _) := x0 in negb (N.eqb m (e_recvseq y))) (e_cache y))
+                         (e_repoch y) (e_lepoch y) (e_queue y) (e_toack y))) as [A B].
+        rewrite A, B. auto. }
       set (y := if hs && e_client x then consume_nst 8 x else x).
-      transitivity (e_lastsent y); [reflexivity|]. subst y. dif; [rewrite Hx|]; reflexivity. }
+      assert (Hy : e_lastsent y = e_lastsent e4 /\ e_sent y = e_sent e4).
+      { subst y. dif; [destruct (Hx 8%nat x) as [A B]; rewrite A, B|]; auto. }
+      exact Hy. }
+    destruct P8 as [P8 P9].
     destruct (post_receive c e4 hs acks rta) as [e5 o5]. cbn [fst snd] in *.
     unfold ok_step. cbn [fst snd app].
     assert (S5 : stage e5 = 7).
     { unfold stage. rewrite P1, T0. reflexivity. }
-    split; [left; rewrite P8, T2; subst e3; cbn; exact Hls2|].
+    split; [left; split; [rewrite P8, T2; subst e3; cbn; exact Hls2 | rewrite P9, T4; subst e3; cbn; exact Hsn2]|].
     assert (Hle : stage e <= 7).
     { rewrite <- Hst2. unfold stage. rewrite W2, W1.
       apply andb_prop in Ec. destruct Ec as [_ Ec]. rewrite (last_send_is_F5 c _ Hfl Ec). cbv. discriminate. }
@@ -1284,8 +1303,8 @@ Proof.
     split; [rewrite P7, has_hs_ack; discriminate | lia]. }
   pose proof (same_fsm_parse c e2) as Hp. pose proof (parse_next c e2) as Hn.
   destruct (parse c e2) as [e3 nxt]. cbn [fst snd] in *.
-  destruct (same_fsm_stage e2 e3 Hp) as (S3&L3&F3').
-  assert (Hrec3 : recent c e3 now) by (unfold recent in *; rewrite <- L3; exact Hrec2).
+  destruct (same_fsm_stage e2 e3 Hp) as (S3&L3&F3'&N3).
+  assert (Hrec3 : recent c e3 now) by (eapply recent_transfer; [exact L3 | exact N3 | exact Hrec2]).
   destruct (N.eqb_spec nxt 0) as [E0 | E0].
   { rewrite (after_ack_recent c e3 retr now Hrec3). apply ok_step_same; try congruence.
     rewrite has_hs_app, has_hs_ack. reflexivity. }
@@ -1309,13 +1328,13 @@ Proof.
     set (e4 := drain _).
     assert (H4 : same_fsm e3 e4).
     { subst e4. eapply same_fsm_trans; [apply same_fsm_set_epochs | apply same_fsm_drain]. }
-    destruct (same_fsm_stage e3 e4 H4) as (S4&L4&_).
-    destruct (to_finished_stage c e4 now) as [T1 T2].
+    destruct (same_fsm_stage e3 e4 H4) as (S4&L4&_&N4).
+    destruct (to_finished_stage c e4 now) as (T1 & T2 & T4).
     destruct (to_finished c e4 now) as [e5 o5]. cbn [fst snd] in *.
     unfold ok_step. cbn [fst snd].
     assert (Hlt : stage e < stage e5).
     { rewrite T1, <- Hst2. unfold stage. rewrite W2, W1, Hn2. cbv. reflexivity. }
-    split; [left; congruence|]. split; [lia|]. split; [intros _; exact Hlt | lia].
+    split; [left; split; congruence|]. split; [lia|]. split; [intros _; exact Hlt | lia].
 Qed.
 
 (* C17: within half an initial interval of its last transmission a waiting endpoint answers a
@@ -1343,7 +1362,7 @@ Proof.
   destruct (snd (acknowledge e2 acks)) eqn:Ep.
   - intros _. right. destruct (acknowledge_progress e2 acks Ep) as (f & Hf1 & Hf2). exists f. split; [exact Hf1|].
     replace (e_pending e) with (e_pending e2); [exact Hf2|].
-    subst e2. destruct Hs' as (_&_&_&_&_&_&_&_&_&Hp&_). destruct retr; cbn; congruence.
+    destruct Hs' as (_&_&_&_&_&_&_&_&_&Hp&_). subst e2. destruct retr; [symmetry; exact Hp|]. cbn [set_interval set_fsm e_pending]. symmetry. exact Hp.
   - intro Hh. left.
     pose proof (on_event_recent c e1' hs retr acks (e_toack e1) now Hfl Hw1 Hrec1 (acknowledge_empty e2 acks Hne) Ep)
       as (_ & _ & Hlt & _).
@@ -1417,3 +1436,31 @@ Proof.
   specialize (IH e1 Hrest H3 H4). destruct (run c e1 ins) as [e2 tr]. cbn [snd] in *.
   unfold count_hs in *. cbn [filter snd]. destruct (has_hs o) eqn:Eo; cbn [length]; [specialize (H2 eq_refl); lia | lia].
 Qed.
+
+(* ---------- known gap (C17): a repeated identical fragment is "new data" every time ---------- *)
+
+(* as coded (fragment_buffer.go pushHandshakeFragments): only message_seq < current makes a
+   retransmission; a fragment of the message being assembled or of a later one is never one, even
+   when the very same fragment is already held *)
+Lemma held_fragment_is_new_data e m ht fo fl tl ep0 :
+  e_fbcur (fb_advance e) <= m -> snd (push e (m, ht, fo, fl, tl, ep0)) = false.
+Proof.
+  intro H. unfold push. destruct (N.ltb_spec m (e_fbcur (fb_advance e))); [lia|]. dif; reflexivity.
+Qed.
+
+(* ... so "the initial interval is restored (only) when new data arrives" is FALSE of the faithful
+   model: a client that has backed off to 4 s and already holds the 1-byte fragment (ServerHello
+   type, message_seq 40) is handed the identical fragment again: it emits nothing and its interval is
+   back at the initial 1 s.  (Not repaired: flagging a held fragment as a retransmission would make
+   the DTLS 1.3 machine re-send its flight for every copy.) *)
+Definition repeat_cfg : cfg := cfg13 g13_v13.
+Definition repeat_dgram : dgram := [{| r_ep := 0; r_body := Hs HT_SH 40 0 1 32; r_size := 26 |}].
+Definition repeat_state : ep :=
+  timeouts 2 repeat_cfg (fst (on_datagram repeat_cfg (timeouts 2 repeat_cfg (ep_init repeat_cfg true)) repeat_dgram 7100)).
+
+Theorem only_new_data_restores_interval_refuted :
+  exists (e : ep) (d : dgram) (now : N),
+    existsb (same_slot 40 0) (e_frags e) = true /\ d = repeat_dgram /\
+    e_interval e = 4000 /\ c_initial repeat_cfg = 1000 /\
+    e_interval (fst (on_datagram repeat_cfg e d now)) = 1000 /\ snd (on_datagram repeat_cfg e d now) = [].
+Proof. exists repeat_state, repeat_dgram, 14200. vm_compute. repeat split; reflexivity. Qed.
